@@ -51,8 +51,12 @@ def gen_hydraulic(rng, n_junc=None, fluid=None, features=None):
     flat = rng.random() < 0.5
     t0 = float(rng.choice([283.15, 293.15, 313.15, 333.15])) if not gas else float(rng.choice([283.15, 293.15]))
     pn = float(rng.uniform(3, 12)) if not gas else float(rng.choice([0.05, 0.8, 4.0, 16.0]) * rng.uniform(1, 1.3))
+    # junction temperatures: uniform, or an individual (given) temperature per junction -- in hydraulics mode they are
+    # inputs that set the fluid properties of the adjacent branches
+    vary_t = rng.random() < features.get("p_vary_t", 0.25)
     for k in range(n):
-        s["junctions"].append({"pn_bar": pn * float(rng.uniform(0.9, 1.0)), "tfluid_k": t0,
+        tk = t0 if not vary_t else float(np.clip(t0 + rng.uniform(-8, 45 if not gas else 30), 278.15, 363.15))
+        s["junctions"].append({"pn_bar": pn * float(rng.uniform(0.9, 1.0)), "tfluid_k": tk,
                                "height_m": 0.0 if flat else float(rng.choice([0, 0, 5, 12.5, -8, 40]) if not gas
                                                                     else rng.choice([0, 0, 10, 80])),
                                "in_service": True, "index": labels[k]})
@@ -157,10 +161,16 @@ def gen_hydraulic(rng, n_junc=None, fluid=None, features=None):
                            "u_w_per_m2k": float(rng.choice([0.0, 1.0, 10.0])), "text_k": float(rng.choice([283.15, 293.15])),
                            "in_service": True})
     # pipe valves (junction-pipe)
-    if s["pipes"] and rng.random() < features.get("p_pipe_valve", 0.15):
-        pi = int(rng.integers(0, len(s["pipes"])))
-        s["valves"].append({"junction": s["pipes"][pi]["from"], "element": pi, "et": "pi", "d_mm": 100.0,
-                            "opened": bool(rng.random() < 0.6), "loss": 0.0})
+    if s["pipes"] and rng.random() < features.get("p_pipe_valve", 0.25):
+        # one or several junction-to-pipe valves on distinct pipe ends (either end of the pipe), in random row order
+        ends = [(pi, side) for pi in range(len(s["pipes"])) for side in ("from", "to")]
+        k = min(len(ends), int(rng.choice([1, 1, 2, 3, 4])))
+        for e in rng.permutation(len(ends))[:k]:
+            pi, side = ends[int(e)]
+            if side == "to" and s["pipes"][pi]["from"] == s["pipes"][pi]["to"]:
+                continue
+            s["valves"].append({"junction": s["pipes"][pi][side], "element": pi, "et": "pi", "d_mm": 100.0,
+                                "opened": bool(rng.random() < (0.6 if k == 1 else 0.85)), "loss": 0.0})
     # loads
     scale = (0.03 if gas else 1.0) * float(rng.choice([0.2, 1.0, 1.0, 3.0]))
     for k in range(1, n):
